@@ -25,19 +25,21 @@ import (
 // is complete, so nothing after it may influence the verdict, and a parser holding all of H must not ask for more.
 
 var c09ReqLines = []string{"GET /p HTTP/1.1", "POST /p HTTP/1.1", "GET /p HTTP/1.0", "GET http://h/p HTTP/1.1", "GET /p HTTP/1.1 ", "GET /p"}
-var c09ReqFields = []string{"Host: a", "Content-Length: 0", "Content-Length: 3", "Transfer-Encoding: chunked", "X-A: b", " folded", "X-A b", "Connection: close", "Host : a"}
+var c09ReqFields = []string{"Host: a", "Content-Length: 0", "Content-Length: 3", "Transfer-Encoding: chunked", "X-A: b", " folded", "X-A b", "Connection: close", "Host : a", "Cookie: k=v", "User-Agent: u"}
 var c09RespLines = []string{"HTTP/1.1 200 OK", "HTTP/1.0 200 OK", "HTTP/1.1 204 No Content", "HTTP/1.1 200", "HTTP/1.1  200 OK", "HTTP/1.1 2000 OK"}
-var c09RespFields = []string{"Content-Length: 0", "Content-Length: 3", "Transfer-Encoding: chunked", "X-A: b", " folded", "X-A b", "Connection: close", "Content-Type: t/p", "Content-Length : 3"}
+var c09RespFields = []string{"Content-Length: 0", "Content-Length: 3", "Transfer-Encoding: chunked", "X-A: b", " folded", "X-A b", "Connection: close", "Content-Type: t/p", "Content-Length : 3", "Set-Cookie: k=v", "Server: s"}
 
 func c09Continuations(resp bool) []string {
 	second := "GET /q HTTP/1.1\r\nHost: b\r\n\r\n"
 	if resp {
 		second = "HTTP/1.1 200 OK\r\nContent-Length: 0\r\n\r\n"
 	}
-	return []string{"", "\r\n", "abc", second, "\r\n\r\n", strings.Repeat("a", 4096), "\n\n", "x: y\r\n\r\n"}
+	return []string{"", "\r\n", "abc", second, "\r\n\r\n", strings.Repeat("a", 4096), "\n\n", "x: y\r\n\r\n",
+		second + second, "abc\r\n\r\n", "abc\n\n"}
 }
 
-var c09ContNames = []string{"empty", "CRLF", "body-bytes", "second-message", "CRLFCRLF", "4KiB-a", "LFLF", "field-line+CRLFCRLF"}
+var c09ContNames = []string{"empty", "CRLF", "body-bytes", "second-message", "CRLFCRLF", "4KiB-a", "LFLF", "field-line+CRLFCRLF",
+	"two-pipelined-messages", "body-bytes+CRLFCRLF", "body-bytes+LFLF"}
 
 type c09Head struct {
 	resp     bool
@@ -113,9 +115,15 @@ func c09Complete(b []byte) int {
 	}
 }
 
+// c09Obs is one named observation of a parsed header. The first block ("fields": start-line values, framing values
+// and All()) is kept in c09Verdict.fields; every further public read accessor is observed separately so that a
+// difference names the accessor that exposes it.
+type c09Obs struct{ name, val string }
+
 type c09Verdict struct {
 	accept   bool
 	fields   string
+	obs      []c09Obs
 	consumed int
 	err      string
 }
@@ -125,6 +133,100 @@ func (v c09Verdict) key() string {
 		return "reject"
 	}
 	return fmt.Sprintf("accept consumed=%d %s", v.consumed, v.fields)
+}
+
+// c09Diff compares two verdicts of the same head completely: acceptance, the parsed fields, the consumed length and
+// every further observation. kind is "" when they are identical, else "verdict", "fields", "consumed-length" or the
+// name of the first differing observation; detail shows that observation on both sides.
+func c09Diff(a, b c09Verdict) (kind, detail string) {
+	switch {
+	case a.accept != b.accept:
+		return "verdict", ""
+	case !a.accept:
+		return "", ""
+	case a.fields != b.fields:
+		return "fields", ""
+	case a.consumed != b.consumed:
+		return "consumed-length", ""
+	}
+	return c09DiffObs(a.obs, b.obs)
+}
+
+func c09DiffObs(a, b []c09Obs) (kind, detail string) {
+	if len(a) != len(b) {
+		return "observation-count", fmt.Sprintf("%d vs %d observations", len(a), len(b))
+	}
+	for i := range a {
+		if a[i] != b[i] {
+			return a[i].name, fmt.Sprintf("%s: %s vs %s", a[i].name, c09Short(a[i].val), c09Short(b[i].val))
+		}
+	}
+	return "", ""
+}
+
+func c09Short(s string) string {
+	if len(s) > 300 {
+		return s[:300] + "...(" + strconv.Itoa(len(s)) + " bytes)"
+	}
+	return s
+}
+
+var c09PeekNames = []string{"Host", "Content-Length", "Transfer-Encoding", "X-A", "Connection", "Cookie", "Set-Cookie", "User-Agent", "Content-Type",
+	"Server", "Trailer", "Date", "X", "Q"}
+
+// c09ObserveReq reads every public read accessor of a parsed RequestHeader that c09Verdict.fields does not already
+// cover. RawHeaders comes first: AllInOrder normalises the keys of the raw block in place.
+func c09ObserveReq(h *RequestHeader) []c09Obs {
+	var o []c09Obs
+	add := func(n string, v string) { o = append(o, c09Obs{n, v}) }
+	add("raw-header-block", fmt.Sprintf("%q", h.RawHeaders()))
+	var sb strings.Builder
+	for k, v := range h.AllInOrder() {
+		fmt.Fprintf(&sb, " %q=%q", k, v)
+	}
+	add("fields-in-order", sb.String())
+	add("serialised-header", fmt.Sprintf("%q", h.Header()))
+	add("header-string", fmt.Sprintf("%q", h.String()))
+	add("trailer-header", fmt.Sprintf("%q", h.TrailerHeader()))
+	sb.Reset()
+	for k, v := range h.Cookies() {
+		fmt.Fprintf(&sb, " %q=%q", k, v)
+	}
+	fmt.Fprintf(&sb, " k=%q", h.Cookie("k"))
+	add("cookies", sb.String())
+	add("key-list", fmt.Sprintf("len=%d keys=%q", h.Len(), h.PeekKeys()))
+	add("special-accessors", fmt.Sprintf("ct=%q ce=%q ua=%q referer=%q upgrade=%v boundary=%q get=%v post=%v head=%v gzip=%v",
+		h.ContentType(), h.ContentEncoding(), h.UserAgent(), h.Referer(), h.ConnectionUpgrade(), h.MultipartFormBoundary(), h.IsGet(), h.IsPost(), h.IsHead(), h.HasAcceptEncoding("gzip")))
+	sb.Reset()
+	for _, n := range c09PeekNames {
+		fmt.Fprintf(&sb, " %s=%q/%q", n, h.Peek(n), h.PeekAll(n))
+	}
+	add("peek-by-name", sb.String())
+	return o
+}
+
+func c09ObserveResp(h *ResponseHeader) []c09Obs {
+	var o []c09Obs
+	// no "Date: <now>" line in the serialised form: the observation must be a function of the parsed bytes only
+	h.noDefaultDate = true
+	add := func(n string, v string) { o = append(o, c09Obs{n, v}) }
+	add("serialised-header", fmt.Sprintf("%q", h.Header()))
+	add("header-string", fmt.Sprintf("%q", h.String()))
+	add("trailer-header", fmt.Sprintf("%q", h.TrailerHeader()))
+	var sb strings.Builder
+	for k, v := range h.Cookies() {
+		fmt.Fprintf(&sb, " %q=%q", k, v)
+	}
+	fmt.Fprintf(&sb, " k=%q", h.PeekCookie("k"))
+	add("cookies", sb.String())
+	add("key-list", fmt.Sprintf("len=%d keys=%q", h.Len(), h.PeekKeys()))
+	add("special-accessors", fmt.Sprintf("msg=%q server=%q ct=%q ce=%q upgrade=%v", h.StatusMessage(), h.Server(), h.ContentType(), h.ContentEncoding(), h.ConnectionUpgrade()))
+	sb.Reset()
+	for _, n := range c09PeekNames {
+		fmt.Fprintf(&sb, " %s=%q/%q", n, h.Peek(n), h.PeekAll(n))
+	}
+	add("peek-by-name", sb.String())
+	return o
 }
 
 func c09ReadBounded(resp bool, in []byte) c09Verdict {
@@ -146,7 +248,7 @@ func c09Parse(resp bool, br *bufio.Reader) c09Verdict {
 		}
 		fmt.Fprintf(&sb, "status=%d proto=%q cl=%d close=%v;", h.StatusCode(), h.Protocol(), h.ContentLength(), h.ConnectionClose())
 		h.VisitAll(func(k, v []byte) { fmt.Fprintf(&sb, " %q=%q", k, v) })
-		return c09Verdict{accept: true, fields: sb.String()}
+		return c09Verdict{accept: true, fields: sb.String(), obs: c09ObserveResp(&h)}
 	}
 	var h RequestHeader
 	if err := h.Read(br); err != nil {
@@ -154,7 +256,7 @@ func c09Parse(resp bool, br *bufio.Reader) c09Verdict {
 	}
 	fmt.Fprintf(&sb, "method=%q uri=%q proto=%q host=%q cl=%d close=%v;", h.Method(), h.RequestURI(), h.Protocol(), h.Host(), h.ContentLength(), h.ConnectionClose())
 	h.VisitAll(func(k, v []byte) { fmt.Fprintf(&sb, " %q=%q", k, v) })
-	return c09Verdict{accept: true, fields: sb.String()}
+	return c09Verdict{accept: true, fields: sb.String(), obs: c09ObserveReq(&h)}
 }
 
 // c09Deliveries: the ways the head reaches an open connection. The last chunk is what matters: the parser must decide
@@ -189,6 +291,7 @@ func c09ReadOpen(resp bool, chunks [][]byte) (v c09Verdict, waited bool) {
 type c09SrvConn struct {
 	*vnet.Conn
 	first string
+	obs   []c09Obs
 	calls int
 }
 
@@ -202,6 +305,7 @@ var c09Srv = &Server{
 			fmt.Fprintf(&sb, "method=%q uri=%q proto=%q host=%q close=%v;", h.Method(), h.RequestURI(), h.Protocol(), h.Host(), h.ConnectionClose())
 			h.VisitAll(func(k, v []byte) { fmt.Fprintf(&sb, " %q=%q", k, v) })
 			c.first = sb.String()
+			c.obs = c09ObserveReq(h)
 		}
 	},
 	Logger:                c09NopLogger{},
@@ -213,8 +317,9 @@ type c09NopLogger struct{}
 func (c09NopLogger) Printf(string, ...any) {}
 
 // c09Serve runs the real server on an open connection that delivered in and then stays silent. verdict: what happened
-// to the first message; waited: a Read was issued on the silent connection before any byte of a response was written.
-func c09Serve(in ...[]byte) (verdict string, waited bool) {
+// to the first message; waited: a Read was issued on the silent connection before any byte of a response was written;
+// obs: every further accessor of the first request's header as the handler saw it.
+func c09Serve(in ...[]byte) (verdict string, waited bool, obs []c09Obs) {
 	conn := &c09SrvConn{Conn: vnet.NewConn(in...)}
 	conn.AtEnd = vnet.ErrBlock
 	c09Srv.ServeConn(conn)
@@ -230,6 +335,7 @@ func c09Serve(in ...[]byte) (verdict string, waited bool) {
 	switch {
 	case conn.calls > 0:
 		verdict = "dispatched " + conn.first
+		obs = conn.obs
 	case waited:
 		verdict = "waited-for-more-input"
 	default:
@@ -239,7 +345,16 @@ func c09Serve(in ...[]byte) (verdict string, waited bool) {
 		}
 		verdict = "refused " + string(out)
 	}
-	return verdict, waited
+	return verdict, waited, obs
+}
+
+// c09SrvDiff: "" when the server treated the first message identically, "verdict" when dispatch/refusal or the parsed
+// fields differ, else the name of the first differing observation made by the handler.
+func c09SrvDiff(va string, oa []c09Obs, vb string, ob []c09Obs) (kind, detail string) {
+	if va != vb {
+		return "verdict", ""
+	}
+	return c09DiffObs(oa, ob)
 }
 
 type c09Stats struct {
@@ -279,17 +394,18 @@ func c09CheckHead(r *vrt.R, h *c09Head, st *c09Stats) {
 	for i, s := range conts[1:] {
 		v := c09ReadBounded(h.resp, append(append([]byte{}, H...), s...))
 		evals++
-		if v.key() == base.key() {
+		dk, detail := c09Diff(base, v)
+		if dk == "" {
 			continue
 		}
-		kind := "fields-depend-on-continuation"
-		switch {
-		case v.accept != base.accept:
+		kind := dk + "-depends-on-continuation" // consumed-length, or the name of the accessor that exposes the difference
+		switch dk {
+		case "verdict":
 			kind = "verdict-depends-on-continuation"
-		case v.consumed != base.consumed && v.fields == base.fields:
-			kind = "consumed-length-depends-on-continuation"
+		case "fields":
+			kind = "fields-depend-on-continuation"
 		}
-		viol(h.shape()+":"+kind, fmt.Sprintf("Header.Read(%s + nothing) -> %s%s, but followed by %s -> %s%s", vrt.Q(H), base.key(), c09Err(base), c09ContNames[i+1], v.key(), c09Err(v)))
+		viol(h.shape()+":"+kind, fmt.Sprintf("Header.Read(%s + nothing) -> %s%s, but followed by %s -> %s%s%s", vrt.Q(H), base.key(), c09Err(base), c09ContNames[i+1], v.key(), c09Err(v), c09Detail(detail)))
 		break
 	}
 	// (2) open connection, every delivery: a parser that holds the complete head must decide without another Read
@@ -303,11 +419,14 @@ func c09CheckHead(r *vrt.R, h *c09Head, st *c09Stats) {
 		} else if ov.key() != base.key() && !(ov.accept == base.accept && ov.fields == base.fields) {
 			viol(h.shape()+":open-vs-closed-verdict-differs", fmt.Sprintf("Header.Read(%s): on a closed stream %s, on an open connection (%s) %s", vrt.Q(H), base.key(), dnames[d], ov.key()))
 			break
+		} else if dk, detail := c09DiffObs(base.obs, ov.obs); dk != "" {
+			viol(h.shape()+":"+dk+"-differs-open-vs-closed", fmt.Sprintf("Header.Read(%s): on a closed stream and on an open connection (%s) the same head yields different values%s", vrt.Q(H), dnames[d], c09Detail(detail)))
+			break
 		}
 	}
 	// (3) the server on an open connection (request heads that announce no body)
 	if !h.resp && h.bodyless {
-		sbase, swaited := c09Serve(H)
+		sbase, swaited, sobs := c09Serve(H)
 		st.srvRuns++
 		evals++
 		if strings.HasPrefix(sbase, "dispatched") {
@@ -317,24 +436,30 @@ func c09CheckHead(r *vrt.R, h *c09Head, st *c09Stats) {
 			viol(h.shape()+":waits-for-more-input", fmt.Sprintf("Server.ServeConn on an open connection that delivered the complete head %s issued another Read before answering", vrt.Q(H)))
 		}
 		for d, chunks := range dchunks[1:] {
-			sv, w := c09Serve(chunks...)
+			sv, w, so := c09Serve(chunks...)
 			st.srvRuns++
 			evals++
 			if w && !swaited {
 				viol(h.shape()+":waits-for-more-input", fmt.Sprintf("Server.ServeConn on an open connection that delivered the complete head %s (%s) issued another Read before answering", vrt.Q(H), dnames[d+1]))
 				break
 			}
-			if sv != sbase {
+			if dk, detail := c09SrvDiff(sbase, sobs, sv, so); dk == "verdict" {
 				viol(h.shape()+":verdict-depends-on-delivery", fmt.Sprintf("Server.ServeConn(%s) delivered whole -> %s, delivered %s -> %s", vrt.Q(H), sbase, dnames[d+1], sv))
+				break
+			} else if dk != "" {
+				viol(h.shape()+":"+dk+"-depends-on-delivery", fmt.Sprintf("Server.ServeConn(%s) delivered whole and delivered %s: the handler sees different header values%s", vrt.Q(H), dnames[d+1], c09Detail(detail)))
 				break
 			}
 		}
 		for i, s := range conts[1:] {
-			sv, _ := c09Serve(append(append([]byte{}, H...), s...))
+			sv, _, so := c09Serve(append(append([]byte{}, H...), s...))
 			st.srvRuns++
 			evals++
-			if sv != sbase {
+			if dk, detail := c09SrvDiff(sbase, sobs, sv, so); dk == "verdict" {
 				viol(h.shape()+":verdict-depends-on-continuation", fmt.Sprintf("Server.ServeConn(%s + nothing) -> %s, but followed by %s -> %s", vrt.Q(H), sbase, c09ContNames[i+1], sv))
+				break
+			} else if dk != "" {
+				viol(h.shape()+":"+dk+"-depends-on-continuation", fmt.Sprintf("Server.ServeConn(%s + nothing) and followed by %s: the handler sees different header values for the first request%s", vrt.Q(H), c09ContNames[i+1], c09Detail(detail)))
 				break
 			}
 		}
@@ -343,8 +468,9 @@ func c09CheckHead(r *vrt.R, h *c09Head, st *c09Stats) {
 	// the first bytes of what follows. Skipped for heads that already failed above (same defect, same sig).
 	if !failed {
 		srvBase := ""
+		var srvObs []c09Obs
 		if !h.resp && h.bodyless {
-			srvBase, _ = c09Serve(H)
+			srvBase, _, srvObs = c09Serve(H)
 		}
 	outer:
 		for i, s := range conts[1:] {
@@ -362,8 +488,12 @@ func c09CheckHead(r *vrt.R, h *c09Head, st *c09Stats) {
 					viol(h.shape()+":verdict-depends-on-continuation", fmt.Sprintf("Header.Read(%s): from a closed stream holding only the head %s, from an open connection (%s) %s", vrt.Q(H), base.key(), how, ov.key()))
 					break outer
 				}
+				if dk, detail := c09DiffObs(base.obs, ov.obs); dk != "" {
+					viol(h.shape()+":"+dk+"-depends-on-continuation", fmt.Sprintf("Header.Read(%s): from a closed stream holding only the head and from an open connection (%s) the same head yields different values%s", vrt.Q(H), how, c09Detail(detail)))
+					break outer
+				}
 				if srvBase != "" {
-					sv, w := c09Serve(chunks...)
+					sv, w, so := c09Serve(chunks...)
 					st.srvRuns++
 					evals++
 					if w {
@@ -374,11 +504,22 @@ func c09CheckHead(r *vrt.R, h *c09Head, st *c09Stats) {
 						viol(h.shape()+":verdict-depends-on-continuation", fmt.Sprintf("Server.ServeConn(%s alone) -> %s, but %s -> %s", vrt.Q(H), srvBase, how, sv))
 						break outer
 					}
+					if dk, detail := c09DiffObs(srvObs, so); dk != "" {
+						viol(h.shape()+":"+dk+"-depends-on-continuation", fmt.Sprintf("Server.ServeConn(%s alone) and %s: the handler sees different header values for the first request%s", vrt.Q(H), how, c09Detail(detail)))
+						break outer
+					}
 				}
 			}
 		}
 	}
 	r.Eval(evals)
+}
+
+func c09Detail(d string) string {
+	if d == "" {
+		return ""
+	}
+	return " [" + d + "]"
 }
 
 func c09Err(v c09Verdict) string {
@@ -480,11 +621,14 @@ func TestVerif_C09(t *testing.T) {
 	maxFields := vrt.Pick(r, 2, 3)
 	r.Rule(fmt.Sprintf("request heads: %d start lines x optional leading empty line x every sequence of <=%d field lines out of %d; response heads: %d status lines x same over %d field lines; "+
 		"each with every CRLF / bare-LF assignment to every line including the blank line. Each head H is (1) parsed by RequestHeader.Read / ResponseHeader.Read from a bounded reader holding H+S for the "+
-		"%d continuations S in {%s}: accept/reject, the parsed fields and the consumed length must be identical for all S; (2) parsed from an open connection (vnet.ErrBlock) that delivered exactly H, delivered {whole, split at len-1, len-2, len/2, 1-byte dribble}: "+
-		"no further Read may be issued and the verdict must equal the bounded one; (3) request heads announcing no body are served by Server.ServeConn on such an open connection with every S (and H alone in each of the 5 deliveries): the "+
-		"server must answer before reading on, and what happens to the first message must not depend on S. Every H is complete under fasthttp's own line rule (re-implemented in c09Complete, asserted). "+
+		"%d continuations S in {%s}: accept/reject, the parsed fields, the consumed length and the value of every other public read accessor of the parsed header (request: RawHeaders, AllInOrder, Header/String, TrailerHeader, Cookies/Cookie, Len/PeekKeys, "+
+		"ContentType/ContentEncoding/UserAgent/Referer/ConnectionUpgrade/MultipartFormBoundary/Is*/HasAcceptEncoding, Peek+PeekAll of %d names; response: Header/String, TrailerHeader, Cookies/PeekCookie, Len/PeekKeys, StatusMessage/Server/ContentType/ContentEncoding/ConnectionUpgrade, Peek+PeekAll) "+
+		"must be identical for all S - a difference is reported under the name of the accessor that exposes it; (2) parsed from an open connection (vnet.ErrBlock) that delivered exactly H, delivered {whole, split at len-1, len-2, len/2, 1-byte dribble}: "+
+		"no further Read may be issued and the verdict and all accessor values must equal the bounded ones; (3) request heads announcing no body are served by Server.ServeConn on such an open connection with every S (and H alone in each of the 5 deliveries): the "+
+		"server must answer before reading on, and what happens to the first message and every accessor value the handler sees on ctx.Request.Header must not depend on S or on the delivery; "+
+		"(4) H+S on an open connection split inside H (at len-1, len-2, len/2) for every S, parser and server: same requirements. Every H is complete under fasthttp's own line rule (re-implemented in c09Complete, asserted). "+
 		"Non-trivial: heads with at least one bare-LF line ending.",
-		len(c09ReqLines), maxFields, len(c09ReqFields), len(c09RespLines), len(c09RespFields), len(c09Continuations(false)), strings.Join(c09ContNames, ", ")))
+		len(c09ReqLines), maxFields, len(c09ReqFields), len(c09RespLines), len(c09RespFields), len(c09Continuations(false)), strings.Join(c09ContNames, ", "), len(c09PeekNames)))
 	r.Assume("bufio.Reader of 4096 bytes (the server's default ReadBufferSize) over the input", "vnet.Conn with AtEnd=ErrBlock models a peer that keeps the connection open without sending")
 	r.Set("max_field_lines", maxFields)
 
